@@ -8,5 +8,34 @@ THOROUGH = {"names": ["A", "B"], "objs": 3, "nvals": 2, "kids": 2, "held": 1, "s
             "walks": {"names": ["A", "B", "C"], "objs": 6, "kids": 4, "held": 2, "num": 6000, "depth": 60}}
 
 
+def signature(e, clause):
+    return {"clause": clause, "target": e["target"], "op": e["op"], "lvl": e["lvl"], "outcome": e["outcome"]}
+
+
 def run(ctx):
     tree.run_property(ctx, FOCUS, QUICK, THOROUGH)
+    # rejectable operations outside the container model: whole-value / children-list assignment, datatype change,
+    # invalid leaves, absent or foreign children, through elements alone and inside their parents
+    from . import atomic
+    from ..common import pmap, judge
+    versions = ["2.5"] if ctx.tier == "quick" else ["2.3", "2.5", "2.6", "2.8"]
+    events = []
+    for part in pmap(atomic.events_for, versions):
+        for e in part:
+            if "harness_note" in e:
+                ctx.notes.append(e["harness_note"])
+            else:
+                events.append(e)
+    for i, e in enumerate(events):
+        e["id"] = i + 1
+    failed, trivial = judge(ctx, "AtomicTrace", "AtomicTrace.cfg", events)
+    byid = {e["id"]: e for e in events}
+    ctx.evaluations += len(events)
+    ctx.extra["atomic_probes"] = len(events)
+    ctx.extra["atomic_probes_rejected"] = len(events) - len(trivial)
+    for e in events:
+        if e["id"] not in trivial:
+            ctx.nontrivial(("atomic", e["target"], e["op"], e["lvl"], e["v"]))
+    for i, clause in sorted(failed.items()):
+        e = byid[i]
+        ctx.fail(signature(e, clause), {"clause": clause, "event": {k: (("".join(chr(c) for c in e[k])) if k.startswith(("enc_", "root_")) else e[k]) for k in e}})
